@@ -38,7 +38,15 @@ type State struct {
 	Foreign map[string]int64 `json:"-"`
 }
 
+// ForeignAmountBase marks an amount recorded in the foreign denomination: it is projected as -(base + amount), a
+// value no specification state contains, so that the step is still recorded and TLC judges it (instead of the harness
+// giving up on a state only a defect can produce).
+const ForeignAmountBase = 1000000
+
 func amt(c sdk.Coin) (int64, error) {
+	if c.Denom == ForeignDenom && c.Amount.IsInt64() {
+		return -(ForeignAmountBase + c.Amount.Int64()), nil
+	}
 	if c.Denom != Denom {
 		return 0, fmt.Errorf("unprojectable denom %q", c.Denom)
 	}
